@@ -151,8 +151,9 @@ def answer (ws : List String) : String :=
       if (getKV (kvOf post) "twin").isSome then
         -- the same add through Cluster.AddFile / the HTTP handler: held to the Spec only (its block order is not recorded)
         let failed := (clauses c (o.view c.shard)).filter (fun x => !x.2)
-        if !failed.isEmpty then "propfail " ++ ",".intercalate (failed.map (·.1)) ++ " arm=entry-point-twin"
-        else "ok arm=entry-point-twin"
+        let a := "entry-point-twin" ++ (if o.failed.isEmpty then "" else "-after-dropped-error")
+        if !failed.isEmpty then "propfail " ++ ",".intercalate (failed.map (·.1)) ++ " arm=" ++ a
+        else "ok arm=" ++ a
       else
       let m := run c o.stream o.fin
       let a := arm c o m
